@@ -90,6 +90,10 @@ func main() {
 	switch os.Args[1] {
 	case "l1":
 		cmdL1(os.Args[2:])
+	case "idgen":
+		cmdIdgen(os.Args[2:])
+	case "idburst":
+		cmdIdburst(os.Args[2:])
 	default:
 		fatal(2, "unknown command %q", os.Args[1])
 	}
